@@ -28,3 +28,19 @@ void baton_pass(uint32_t *w)
 	__atomic_store_n(w, 1, __ATOMIC_RELEASE);
 	futex(w, FUTEX_WAKE_PRIVATE, 1);
 }
+
+/* byte copy that is not a call to memcpy (TSan intercepts memcpy even when the
+ * caller is uninstrumented; the simulated kernel's copies between the two
+ * ends of a pipe are not accesses of the code under test) */
+#include <stddef.h>
+#include <string.h>
+void sim_copy(void *dst, const void *src, size_t n)
+{
+#ifdef GMSIM_TSAN
+	volatile unsigned char *d = dst;
+	const volatile unsigned char *s = src;
+	while (n--) *d++ = *s++;
+#else
+	memcpy(dst, src, n);
+#endif
+}
